@@ -110,19 +110,22 @@ PROPS = {
     },
     'C10': {
         'lean': ['Netpol.Properties.C10'],
-        'families': [('ingress', 800, 30000)],
-        'rule': 'worlds with 1-3 Services (selectors from workload labels, named/numbered ports and targetPorts), 0-2 Ingresses (default backend, rule paths; by number / name / '
+        'families': [('ingress', 800, 30000), ('renderi', 250, 8000)],
+        'accept_props': ['C10'],
+        'rule': 'renderi family: the same world written a second way (no metadata.namespace where it is `default`, for every kind including Routes and Ingresses; kind List; block YAML) must give the same ingress-controller lines. ingress family: worlds with 1-3 Services (selectors from workload labels, named/numbered ports and targetPorts), 0-2 Ingresses (default backend, rule paths; by number / name / '
                 'targetPort-only numbers / missing services) and 0-2 Routes (to, alternateBackends, port.targetPort number/name/none); K-diff against the model of ingress_analyzer.go; '
                 'P against the Lean specification of the ingress-controller lines and of the blocked warnings',
         'assumptions': ['service port numbers and names unique within a Service', 'the input does not itself define the namespace ingress-controller-ns (the property speaks of a namespace unknown to the input; with a Namespace manifest of that name the tool evaluates the fake pod as a member of the real namespace, with its labels)'],
     },
     'C12': {
         'lean': ['Netpol.Properties.C12', 'Netpol.Tie.C12'],
-        'families': [('mut', 1500, 60000)],
+        'families': [('mut', 1500, 60000), ('render', 300, 8000), ('renderi', 150, 4000)],
+        'accept_props': ['C12'],
         'shard_min': 100,
         'rule': 'valid generated worlds (all kinds incl. bare pods with ownerReferences, Services, Ingresses, Routes, ANPs) with 1-2 structural mutations '
                 '(drop / null / retype to int, string, bool, list, map / IPv6 or garbage strings, at any field path of any document) or byte-level damaged extra files; '
-                'list (plain, exposure with all formats, stop-on-error), diff (both orders, formatted) and the eval command run in-process under recover; '
+                'list (plain, exposure with all formats, stop-on-error), diff (both orders, formatted; with stop-on-error; the diff command itself with and without --fail) and the eval command run in-process under recover; '
+                'render / renderi families: valid worlds written a second way (namespace left out, kind List, block YAML, ports over several containers) analysed under recover; '
                 'non-trivial/distinct = distinct mutation lists that were executed without panic',
         'assumptions': ['panics inside third-party decoders, stack/heap exhaustion and timeouts are only exercised, not modelled'],
     },
